@@ -5,14 +5,15 @@ from qv.facts import callee_name, const_int, const_name, is_place
 from qv import paths, effects, panics
 from qv.bounds import Analyzer, lin, add, le, lt, fmt
 from qv.rulelib import HANDLE_MESSAGE, HMWC, HANDLE_QUERY, HANDLE_NON_AXFR, W
-from rules import e5, namewire, c14, c15, c18, c05
+from rules import e5, namewire, c14, c15, c18, c05, c02, writer_inv
 
 MODE = 'lib'
 TECHNIQUE = 'static analysis: census of panic-capable MIR sites reachable from Server::handle_message (resolved call graph, trait fan-out), each discharged by dominating-guard linear entailment, verified summaries/invariants, or a justified exception with machine-checked premises'
 EXPLANATION = """
 Decides, for every function reachable from Server::handle_message (resolved call graph with trait fan-out over both
 catalog implementations) that lies in the request-parsing and dispatch modules -- name::wire and the Name wire wrappers,
-message::reader, rr::rdata (read / validate paths), server (mod.rs, query.rs) and the small code modules (class, type,
+message::reader, message::writer (except the compression scan write_compressed_unhinted_name and templates), rr::rdata
+(read / validate paths), server (mod.rs, query.rs) and the small code modules (class, type,
 opcode, rcode, question) -- that EVERY panic-capable MIR site (bounds-checked index, range index, overflow-checked
 arithmetic, unwrap / expect, explicit panic, panicking std / arrayvec calls) is excluded for ANY received octet string:
 by linear entailment from dominating guards (E5), by a verified callee summary or struct invariant (C14 / C15 / C18
@@ -20,21 +21,21 @@ rules, re-run here), or by a justified exception whose premises are machine-chec
 handle_message; Writer::new on a contract-sized buffer; set_extended_rcode after a successful set_edns; ARCOUNT-1 inside
 the ARCOUNT loop; the NotTsig arm after a TYPE == TSIG test; question.unwrap() below the Some-arm of handle_query; the
 WrongZone arms under `unchecked: true` for the QNAME the catalog matched; unit-step usize counters).
-STAGING (DESIGN §3/E5): message::writer, message::tsig, db::*, server::rrl and the unsafe Name plumbing are NOT part of
+STAGING (DESIGN §3/E5): the writer's compression scan, message::tsig, db::*, server::rrl and the unsafe Name plumbing are NOT part of
 the claim; their sites are counted and reported in the evidence (census only).
 Not decided: allocation failure, stack overflow, panics inside hmac/sha/arrayvec beyond the listed APIs, third-party
 Catalog/Zone implementations, and the modules excluded above.
 """
 ASSUMPTIONS = ['response_buf satisfies the documented size contract of handle_message (checked for the bundled I/O providers by C30)',
                'the system clock is between 1970 and 2^48 s (TimeSigned conversion)', 'every CFG path is assumed feasible', 'lock poisoning requires a prior panic']
-LEVEL_NOTE = ('Claimed modules: name::wire, Name wire wrappers, message::reader, rr::rdata read/validate, server::{mod,query}, class/type/opcode/rcode/question. '
-              'EXCLUDED from the claim (census only, see evidence.coverage.census_only): message::writer, message::tsig, db::*, server::rrl, unsafe Name internals, lazy_static initialisers. '
+LEVEL_NOTE = ('Claimed modules: name::wire, Name wire wrappers, message::reader, message::writer (without write_compressed_unhinted_name and templates; under the verified Writer invariant), rr::rdata read/validate, server::{mod,query}, class/type/opcode/rcode/question. '
+              'EXCLUDED from the claim (census only, see evidence.coverage.census_only): Writer::write_compressed_unhinted_name, message::tsig, db::*, server::rrl, unsafe Name internals, lazy_static initialisers. '
               'Trusted: rustc MIR construction/Instance resolution, the mirfacts exporter, the qv engines.')
 
-CLAIMED_PREFIXES = ('name::wire::', 'message::reader::', '<message::reader::', 'rr::rdata::', '<rr::rdata::', "<&'a rr::rdata::", 'server::', '<server::',
+CLAIMED_PREFIXES = ('message::writer::', '<message::writer::', 'name::wire::', 'message::reader::', '<message::reader::', 'rr::rdata::', '<rr::rdata::', "<&'a rr::rdata::", 'server::', '<server::',
                     'class::', '<class::', 'rr::rr_type::', '<rr::rr_type::', 'message::opcode::', '<message::opcode::', 'message::rcode::', '<message::rcode::',
                     'message::question::', '<message::question::', 'rr::ttl::', '<rr::ttl::')
-EXCLUDED_PREFIXES = ('server::rrl::', '<server::rrl::', 'rr::rdata::tsig::TimeSigned', '<rr::rdata::tsig::', 'rr::rdata::tsig::<impl rr::rdata::Rdata>::new_tsig', 'rr::rdata::tsig::serialize', 'rr::rdata::tsig::required_len')
+EXCLUDED_PREFIXES = (W + 'write_compressed_unhinted_name', W + 'try_from_template', W + 'into_template', 'message::writer::Template', 'server::rrl::', '<server::rrl::', 'rr::rdata::tsig::TimeSigned', '<rr::rdata::tsig::', 'rr::rdata::tsig::<impl rr::rdata::Rdata>::new_tsig', 'rr::rdata::tsig::serialize', 'rr::rdata::tsig::required_len')
 NAME_WRAPPERS = tuple(c14.PUBS)
 
 
@@ -182,6 +183,82 @@ EXCEPTIONS = {
     ('server::query::answer_any', 'panic', 1): ('WrongZone cannot come back from an unchecked lookup of the matched QNAME', wrong_zone_premise),
     ('server::query::answer_any', 'overflow-add', 1): ('unit-step counter', unit_counter),
 }
+
+
+class _Collect:
+    def __init__(self): self.bad = []
+    def require(self, ok, rule, key, where='', a='', b_='', **k):
+        if not ok: self.bad.append(key)
+        return ok
+    def floor(self, *a, **k): pass
+    def ok(self, *a, **k): return True
+    def bad_(self, *a, **k): pass
+    def note(self, *a, **k): pass
+
+
+def reservation_premise(F, fn, b):
+    """The OPT / TSIG appends of finish_with_mac cannot fail and `available + reservation` cannot overflow: exactly the
+    reserved amounts are given back right before the appends (C02 reservation rules, re-run here), and reservations were
+    made under `cursor + amount <= available` (Writer invariant rule)."""
+    r = _Collect()
+    c02.reservation_rules(r, F)
+    ok2, det = writer_inv.reservation_premise(F, fn, b)
+    return not r.bad and ok2, 'C02 reservation rules hold: %s; %s' % (not r.bad, det[:160])
+
+
+def cursor_after_slot(F, fn, b):
+    """add_rr: `self.cursor - rdlength_start - 2`.  rdlength_start is the cursor read just before `cursor += 2`; every
+    store to cursor that can execute afterwards inside add_rr (directly or in callees) adds a non-negative amount."""
+    st = [(bb, i, s_) for f_, bb, i, s_ in e5.field_stores(F, writer_inv.WTY, 'cursor', scope=lambda g: g.gpath == fn.gpath)]
+    slot = [(bb, i, s_) for bb, i, s_ in st if paths.show_operand(fn, s_['rv']['op']) == 'Add(arg1.cursor,2_usize)']
+    t = fn.blocks[b]['term']
+    sub = paths.show_operand(fn, t['ops'][1])
+    reach = F.reachable_fns([fn.gpath])
+    adds = True
+    who = []
+    for g in reach:
+        gf = F.fns[g]
+        if gf.crate != 'quandary':
+            continue
+        for f_, bb, i, s_ in e5.field_stores(F, writer_inv.WTY, 'cursor', scope=lambda x, g=g: x.gpath == g):
+            txt = paths.show_operand(gf, s_['rv']['op'])
+            who.append(g.split('::')[-1])
+            if not re.match(r'^Add\(arg1\.cursor,', txt):
+                adds = False
+    ok = len(slot) == 1 and fn.dominates(slot[0][0], b) and adds
+    return ok, 'slot reserved by cursor += 2 dominates the subtraction; cursor stores reachable from add_rr (%s) only add' % sorted(set(who))
+
+
+def arcount_small(F, fn, b):
+    st = [(bb, i, s_) for f_, bb, i, s_ in e5.field_stores(F, writer_inv.WTY, 'arcount', scope=lambda g: g.gpath == fn.gpath)]
+    txt = sorted(paths.show_operand(fn, s_['rv']['op']) for bb, i, s_ in st)
+    ok = txt == ['0_u16', 'Add(arg1.arcount,1_u16)', 'Add(arg1.arcount,1_u16)'] and not any(bb in fn.reachable(fn.succs()[bb]) for bb, i, s_ in st)
+    return ok, 'ARCOUNT is reset to 0 and then incremented at most twice, outside any loop'
+
+
+def tsig_len_bounded(F, fn, b):
+    from qv import origins
+    t = fn.blocks[b]['term']
+    o = t['ops'][0] if not (is_place(t['ops'][0]) and 'cursor' in paths.show_operand(fn, t['ops'][0])) else t['ops'][1]
+    other = t['ops'][1] if o is t['ops'][0] else t['ops'][0]
+    lv = origins.trace(fn, o['pl']['l'], origins.norm_path(o['pl']['p']), at=(b, None)) if is_place(o) else []
+    names = sorted({callee_name(lf[2]) for lf in lv if lf[0] == 'call'})
+    ok = bool(lv) and all(lf[0] == 'call' for lf in lv) and set(names) <= {'message::tsig::PreparedTsigRr::signed_len', 'message::tsig::PreparedTsigRr::unsigned_len'}
+    return ok and 'cursor' in paths.show_operand(fn, other), 'cursor (<= len(octets) <= isize::MAX) + a TSIG length from %s (<= 606)' % [n.split('::')[-1] for n in names]
+
+
+EXCEPTIONS.update({
+    (W + 'add_rr', 'overflow-sub', 2): ('cursor only grows after the RDLENGTH slot was reserved', cursor_after_slot),
+    (W + 'add_rr', 'overflow-sub', 3): ('cursor only grows after the RDLENGTH slot was reserved', cursor_after_slot),
+    (W + 'add_rrset', 'overflow-add', 1): ('unit-step counter', unit_counter),
+    (W + 'clear_rrs', 'overflow-add', 2): ('ARCOUNT is 0 or 1 here', arcount_small),
+    (W + 'finish_with_mac', 'unwrap', 1): ('the OPT record fits in the space reserved for it', reservation_premise),
+    (W + 'finish_with_mac', 'unwrap', 2): ('the TSIG record fits in the space reserved for it', reservation_premise),
+    (W + 'finish_with_mac', 'overflow-add', 2): ('available + reserved_len <= limit', reservation_premise),
+    (W + 'set_tsig', 'overflow-add', 1): ('bounded TSIG length', tsig_len_bounded),
+    (W + 'opcode', 'unwrap', 1): ('header nibble < 16 always converts', c15.masked_nibble_premise),
+    (W + 'rcode', 'unwrap', 1): ('header nibble < 16 always converts', c15.masked_nibble_premise),
+})
 EXCEPTIONS.update(c14.EXCEPTIONS)
 EXCEPTIONS.update(c15.EXCEPTIONS)
 EXCEPTIONS.update(c18.EXCEPTIONS)
@@ -247,6 +324,7 @@ def check_rrl_question_lemma(R, F):
 
 def check(R, F):
     S = e5.make_summary(F)
+    writer_inv.install(F, S)
     reach = sorted(g for g in F.reachable_fns([HANDLE_MESSAGE]) if F.fns[g].crate == 'quandary')
     R.require(len(reach) >= 250, 'reach', HANDLE_MESSAGE + '|call-graph', '', '%d functions of the crate are reachable from handle_message' % len(reach), 'only %d functions reachable: the call graph is incomplete' % len(reach), nontrivial=False)
     cl = [F.fns[g] for g in reach if claimed(g)]
@@ -256,6 +334,7 @@ def check(R, F):
     e5.check_pres(R, F, S, 'totality.pre')
     # invariants and summaries the entailments above rely on
     c15.check_invariants(R, F, S)
+    writer_inv.check(R, F, S)
     namewire.check_all(R, F, S, 'summary')
     c18.check_read_post(R, F, S)
     for gp, mn in (('rr::rdata::std13::validate_character_string', 1), ('rr::rdata::opt::validate_option', 4)):
